@@ -20,7 +20,7 @@ AXIOMS_OK = []
 RUN_MODULE = "Run.C18run Lang.VisitorModel"
 AGREE = "agree_C18"
 CASE_TYPE = "case_C18"
-SHARD = 120
+SHARD = 30
 LEVEL_NOTE = ("Theorems are about the Gallina model Lang/VisitorModel.v of lang/visitor.py "
               "(_visit_method, every _visit_*, map_and_filter, the class tables, ChainedVisitor) and "
               "utilities/ast_transforms.py; the model is tied to /repo by running both on the same "
@@ -290,7 +290,12 @@ def generate(rng, tier):
     ndocs = 70 if tier == "quick" else 260
     for di in range(ndocs):
         r = rng.random()
-        if r < 0.15:
+        exhaustive = tier == "thorough" and di < 72
+        if exhaustive and di < 12:
+            text = G.KITCHEN[di]
+        elif exhaustive:
+            text = G.gen_document(rng, strings="none", max_depth=1, max_defs=2)
+        elif r < 0.15:
             text = gen_exec.gen_document(rng)[0]
         else:
             text = G.gen_document(rng, strings=rng.choice(["none", "none", "some"]),
@@ -305,7 +310,7 @@ def generate(rng, tier):
         if tier == "quick":
             chosen = [rng.choice(ps) for _ in range(3)]
         else:
-            chosen = ps if di < 45 else [rng.choice(ps) for _ in range(6)]
+            chosen = ps if exhaustive else [rng.choice(ps) for _ in range(6)]
         salt = 0
         for k, loc in chosen:
             for act in ("delete", "replace", "skip"):
